@@ -216,6 +216,24 @@ def plan_C16(ctx):
                                        "RoundTrip Skippable MatcherSound")
         ctx.add_mc(st2)
         cases += c2
+    # length boundaries (127 / 128 and, thorough, 16383 / 16384 encoded bytes) inside nested containers
+    def jstr(n):
+        return {"k": "str", "b": [120] * n}
+    def jarr(es):
+        return {"k": "arr", "nil": False, "e": es}
+    def jobj(ms):
+        return {"k": "obj", "nil": False, "m": ms}
+    sweep = list(range(100, 141)) + ([] if ctx.quick else list(range(16365, 16390)))
+    holder = [c for c in cases if c["ev"] == "codec" and c["T"]["k"] == "struct"][0]
+    for n in sweep:
+        for x in (jarr([jarr([jstr(n), jstr(1)]), jstr(2)]), jobj([[[111], jobj([[[107, 107], jstr(n)]])], [[112], jstr(3)]]),
+                  jarr([jobj([[[], jarr([jstr(n)])]])])):
+            cases.append({"ev": "codec", "T": {"k": "jsonarr" if x["k"] == "arr" else "jsonobj"}, "v": x, "u": ["len-top"]})
+            hv = list(holder["v"])
+            ht = json.loads(json.dumps(holder["T"]))
+            ht["f"][1]["t"] = {"k": "jsonarr" if x["k"] == "arr" else "jsonobj"}
+            hv[1] = x
+            cases.append({"ev": "codec", "T": ht, "v": hv, "u": ["len-field"]})
     log("design check MCJsonAny: %d states, %d cases" % (ctx.states, len(cases)))
     for c in cases:
         c["cfg"] = fam_codec.CFGS["jsonany"]
